@@ -19,3 +19,5 @@ pub mod primes;
 pub use primes::*;
 pub mod divide;
 pub use divide::*;
+pub mod chains;
+pub use chains::*;
